@@ -415,6 +415,8 @@ class SyncRun:
         dest = inf['cmd'][3] if inf else ''
         o, realv = self._delivered_to(s, dest)
         self.events.append({'e': 'copyuid', 's': s, 'v': self.validity_idx(int(v)),
+                            'addressed': (inf.get('addressed') if inf else None) or [],
+                            'hasaddr': bool(inf and inf.get('addressed') is not None),
                             'realv': realv,
                             'srcobj': inf.get('srcobj', '') if inf else '',
                             'dstobj': o,
@@ -440,7 +442,7 @@ class SyncRun:
         line, kind = concretise(cmd, self.msgno)
         view = self.server_view(s)
         addressed = None
-        if cmd[0] == 'store' and view is not None:
+        if cmd[0] in ('store', 'copy', 'move') and view is not None:
             addressed = self._addressed(view, cmd[1], cmd[2])
         self.tags[s] += 1
         tag = f'{s}{self.tags[s]}'.encode()
